@@ -597,24 +597,46 @@ func checkIOErrorSticky(p *Prog, r *Report) {
 	}
 	// the last Buffer.WriteInt32 in SendFileList before the list is flushed
 	var w ssa.CallInstruction
+	// the function of the unit that writes the end-of-list marker (Buffer.WriteByte(0)); its last WriteInt32
 	for _, fn := range g.unitFuncs(sfl) {
-		if fn != sfl {
-			continue
-		}
+		endMarker := false
 		allCalls(fn, func(c ssa.CallInstruction) {
-			if calleeName(c) == "(*"+pkgWire+".Buffer).WriteInt32" {
-				if w == nil || c.Pos() > w.Pos() {
-					w = c
+			if calleeName(c) == "(*"+pkgWire+".Buffer).WriteByte" {
+				if k, ok := constInt(c.Common().Args[1]); ok && k == 0 {
+					endMarker = true
 				}
 			}
 		})
+		if !endMarker {
+			continue
+		}
+		var last ssa.CallInstruction
+		allCalls(fn, func(c ssa.CallInstruction) {
+			if calleeName(c) == "(*"+pkgWire+".Buffer).WriteInt32" {
+				if last == nil || c.Pos() > last.Pos() {
+					last = c
+				}
+			}
+		})
+		if last != nil {
+			w = last
+		}
 	}
 	if w == nil {
-		r.Unk(rule, "I/O error flag write", p.Pos(sfl.Pos()), "no Buffer.WriteInt32 in SendFileList: the end of the file list is written differently now, re-read")
+		r.Unk(rule, "I/O error flag write", p.Pos(sfl.Pos()), "no Buffer.WriteInt32 after the end-of-list marker in the SendFileList unit: the end of the file list is written differently now, re-read")
 		return
 	}
 	v := w.Common().Args[1]
 	pos := p.Pos(instrPos(w))
+	// written by a split-out helper: the flag is its parameter, follow it to the caller
+	if _, isP := v.(*ssa.Parameter); isP {
+		if roots := g.paramRoots(v, 0); len(roots) == 1 {
+			v = roots[0]
+			if in, ok := v.(ssa.Instruction); ok && in.Parent() != nil {
+				sfl = in.Parent()
+			}
+		}
+	}
 	bad := ""
 	if ld, ok := v.(*ssa.UnOp); ok && ld.Op == token.MUL {
 		if cell, ok := ld.X.(*ssa.Alloc); ok {
